@@ -195,6 +195,39 @@ class Ctx:
         }
 
 
+def _anchor_coverage(prop, tier, results) -> dict:
+    """Statement lines of the property's anchored files that this run executed (RV_COVERAGE=1).
+    The per-line detail goes to out/coverage/<prop>-<tier>.json."""
+    from rv import probes
+
+    hits: dict[str, set] = {}
+    for r in results.values():
+        for f, lines in r.get("line_hits", {}).items():
+            hits.setdefault(f, set()).update(lines)
+    anchors = []
+    with open(os.path.join(VERIF, "properties.jsonl")) as fh:
+        for line in fh:
+            p = json.loads(line)
+            if p["id"] == prop:
+                anchors = p["anchors"].get("files", [])
+    out, detail = {}, {}
+    for rel in anchors:
+        path = os.path.join(REPO, rel)
+        if not os.path.exists(path):
+            continue
+        stm = probes.statement_lines(path)
+        h = hits.get(path, set()) & stm
+        out[rel] = f"{len(h)}/{len(stm)} statement lines executed"
+        detail[rel] = {"missed": sorted(stm - h)}
+    d = os.path.join(VERIF, "out", "coverage")
+    os.makedirs(d, exist_ok=True)
+    with open(os.path.join(d, f"{prop}-{tier}.json"), "w") as fh:
+        json.dump(detail, fh)
+    with open(os.path.join(d, f"{prop}-{tier}-hits.json"), "w") as fh:
+        json.dump({os.path.relpath(f, REPO): sorted(v) for f, v in hits.items()}, fh)
+    return out
+
+
 def load_known() -> list[dict]:
     p = os.path.join(VERIF, "known_findings.json")
     if not os.path.exists(p):
@@ -212,6 +245,11 @@ def run_shard(prop, tier, seed, shard, nshards, out):
     mod = _module(prop)
     ctx = Ctx(prop, tier, seed, shard, nshards)
     status = "ok"
+    cov = None
+    if os.environ.get("RV_COVERAGE"):
+        from rv import probes
+
+        cov = probes.LineCoverage([os.path.join(REPO, "swcgeom") + os.sep]).start()
     try:
         mod.run(ctx)
     except Exception:  # a crash of the harness itself is never a verdict
@@ -222,6 +260,8 @@ def run_shard(prop, tier, seed, shard, nshards, out):
             l.strip() for l in tb[-7:-1])[:600]] += 1
     d = ctx.dump()
     d["status"] = status
+    if cov is not None:
+        d["line_hits"] = cov.stop()
     with open(out, "w") as f:
         json.dump(d, f, default=_jsonable)
 
@@ -355,6 +395,10 @@ def orchestrate(prop: str, tier: str, seed: int, jobs: int) -> int:
     for k, msg in dead.items():
         inconc[msg] += 1
 
+    anchor_cov = None
+    if any("line_hits" in r for r in results.values()):
+        anchor_cov = _anchor_coverage(prop, tier, results)
+
     known = [k for k in load_known() if k.get("property") == prop]
     open_known = {k["mechanism"]: k for k in known if k.get("status") == "open"}
     new_viol, known_hits = [], Counter()
@@ -394,6 +438,8 @@ def orchestrate(prop: str, tier: str, seed: int, jobs: int) -> int:
         "inconclusive_reasons": reasons,
         "known_findings_observed": dict(known_hits),
     }
+    if anchor_cov is not None:
+        coverage["anchor_line_coverage"] = anchor_cov
     ev = {
         "property_id": prop,
         "tier": tier,
